@@ -52,6 +52,17 @@ check('C11', level='exploration', steps=[dict(src='drv/c11.c', variant='plain', 
             "non-trivial = row look-ups + file rows + generated lines compared (each distinct by construction)"),
       deadline=dict(quick=300, thorough=600))
 
+check('C07', level='exploration', steps=[dict(src='drv/tld.c', variant='plain', name='tld')],
+      rule=("every CSV row x 5 case variants x 0-4 preceding labels drawn from 8 label shapes, every near miss of every row (proper prefixes/suffixes, deletions, "
+            "substitutions and insertions over [a-z0-9-]) after two different prefixes, every 1-3 character last label, every U-label of raw.csv in mode 6531; "
+            "distinct_nontrivial counts only the lower-/upper-case row spellings x prefixes, which are pairwise distinct by construction (near misses may repeat)"),
+      deadline=dict(quick=300, thorough=1200))
+check('C09', level='exploration', steps=[dict(src='drv/tld.c', variant='plain', defs=['-DC09'], name='reserved')],
+      rule=("8 reserved suffixes x preceding label of every length 0..63 (5 contents incl. 7-letter words) x all 2^letters case patterns (1 label) / 5 patterns (2-3 labels, "
+            "second label of every length 1..63, third label lengths 1..63 step), plus every one-edit neighbour of each suffix behind 9 prefixes in 2 cases; "
+            "distinct_nontrivial counts the kind-0 single-label family (pairwise distinct by construction)"),
+      deadline=dict(quick=300, thorough=1200))
+
 # ---------------------------------------------------------------------------
 def load_findings():
     p = os.path.join(V, 'known_findings.json')
